@@ -235,6 +235,12 @@ def run(report):
             cases.append((t, args))  # default recipe with the words as arguments (first word is then a recipe name lookup)
             if n:
                 cases.append((t, ["v1=x", "r1"] + args[:-1] + ["r2"]))
+            # empty words are words: one in each position, two in a row, all empty
+            for k in range(n):
+                cases.append((t, ["r1"] + [("" if i == k else a) for i, a in enumerate(args)]))
+            if n >= 2:
+                cases.append((t, ["r1"] + [""] * n))
+                cases.append((t, ["r1"] + args[:-2] + ["", ""]))
     n_exh = len(cases)
     # 2. random module trees x adversarial word vectors
     n = 1500 if tier == "quick" else 40000
@@ -324,7 +330,7 @@ def run(report):
     report.coverage.update({
         "evaluations": len(cases),
         "distinct_nontrivial": len(distinct),
-        "rule": "every analyzer-valid signature with <=3 parameters over {required, default, default referring to p0, +, *, * with default} x 0..5 words x {alone, followed by a second recipe, as default recipe, with an override} (exhaustive) + random module trees (root / mod m / mod n, aliases to own recipes and to recipes one and two modules down, default recipes) x word vectors from an adversarial alphabet (recipe and module names, NAME=VALUE, ::-paths, empty word, words with spaces); distinct = distinct (files, argv)",
+        "rule": "every analyzer-valid signature with <=3 parameters over {required, default, default referring to p0, +, *, * with default} x 0..5 words x {alone, followed by a second recipe, as default recipe, with an override, with an empty word in each position} (exhaustive) + random module trees (root / mod m / mod n, aliases to own recipes and to recipes one and two modules down, default recipes) x word vectors from an adversarial alphabet (recipe and module names, NAME=VALUE, ::-paths, empty word, words with spaces); distinct = distinct (files, argv)",
         "samples": samples,
         "exhaustive": True,
         "traces_validated_against_impl": len(cases),
